@@ -217,10 +217,10 @@ public:
       }
       else
       {
-         // switch items
-         UnrefItem();
-         _item.SetPointerAndBits(item, BooleansToBitChord((item!=NULL), doRefCount));
-         RefItem();
+         // switch items.  We take our reference to the new item before we give up our reference to the old one, because
+         // the old item might be holding the only other reference to the new item (eg listRef = listRef()->GetNext())
+         ConstRef newRef(item, doRefCount);
+         this->SwapContents(newRef);  // (newRef)'s destructor will now unreference our old item
       }
    }
 
